@@ -1283,7 +1283,9 @@ func (x *Exec) doReturn(st *State, v *ssa.Return) bool {
 	if st.dry != nil {
 		return false
 	}
+	x.curRet = res
 	x.userAsserts(st, fr, callName{"@return", 1}, false)
+	x.curRet = nil
 	x.atReturn(st, fr, res, v)
 	return false
 }
